@@ -78,7 +78,8 @@ RULE = ('E3: every resource tree of depth <= 3 over the names '
         'into a sub-map) and map[x] = ResourceMap() (a map over a handle '
         'name)} applied to that map object itself: get_static_map() on the '
         'root, every path and absent name read from it by [] / getattr / '
-        'get, the one edit, get_static_map() on the root again, then the '
+        'get (absent names: those of the alphabet), the one edit, '
+        'get_static_map() on the root again, then the '
         'full comparison of the NEW snapshot (every path by [] / getattr / '
         'get, every absent name) against the map as it is now, then every '
         'path and absent name of the tree before the edit read again from '
@@ -689,6 +690,7 @@ def apply_edit(root, path, verb, name):
 # it answered before (frozen reading of "snapshot") or what the map answers
 # now (live reading of "mirror"); the statement does not choose.
 FORMS = ('item', 'attr', 'get')
+_OLD_PROBES = tuple((n, n.isidentifier()) for n in NAMES)
 _ABSENT = ('absent',)
 
 
@@ -716,7 +718,7 @@ def _read(cur, name, form):
 
 
 def read_all(shape, snap):
-    """Every (path, form) of ``shape`` (its names and every absent probe
+    """Every (path, form) of ``shape`` (its names and every absent alphabet
     name on every map) read from ``snap`` by chained [] / getattr / get, in a
     fixed order.  -> [(path, form, outcome)], outcome = ('obj', object) |
     ('absent',) | ('error', exception name); below something that is not a
@@ -725,7 +727,7 @@ def read_all(shape, snap):
     static = desper.StaticResourceMap
 
     def visit(shape, path, curs):
-        for name, ncls, ident in _PROBES:
+        for name, ident in _OLD_PROBES:
             sub = shape.get(name, _SKIPPED)
             there = path + (name,)
             nxt = []
